@@ -2,7 +2,7 @@ SPEC = {
     'id': 'C19',
     'harness': 'hC19',
     'coq_dir': 'C19',
-    'claimed': False,
+    'claimed': True,
     'theorems': ['C19_history_independent_partial', 'C19_validity_history_independent_partial',
                  'C19_default_config_validity', 'C19_default_config_exact', 'C19_default_guard_satisfiable',
                  'C19_validity_order_independent',
